@@ -41,6 +41,10 @@ def keyed_case(draw, opts, raw=False, with_assert=False):
             p1, tin, t = [], 'int', 'int'
         node = draw(st.sampled_from([['assert_mod', draw(st.integers(2, 5)), draw(st.integers(0, 1))], ['assert1_le']]))
         p = p1 + [node] + draw(gen.chain(t, NOEARLY, NOEARLY.max_depth, max_len=3))
+    if not with_assert and not opts.stateless and draw(st.integers(0, 5)) == 0 and not gen.has_early(p) and 'tee' not in A.kinds_in(p) and A.type_of(p, tin) in A.SCALAR:
+        # a streaming scan that appends to ONE list and re-emits it, and a stage that keeps what it receives: the keyed run must
+        # hand on the very same (live) objects as the plain run does
+        p = p + [['scan_list_mut'], ['to_list']]
     items = draw(gen.keyed_items(max_keys=5, max_size=16, mono=tin))
     case = {'tin': tin, 'p': p, 'items': items, 'numpy': draw(st.integers(0, 5)) == 0}
     if raw:
